@@ -275,7 +275,7 @@ def _strategy():
             "env": st.sampled_from(FIELDS["env"]),
             "stream": st.sampled_from([None, None, "QueueStream",
                                        "StdoutStream"])})
-    names = ['w1', 'w2', 'w3']
+    names = ['w1', 'W2', 'Web3']
 
     @st.composite
     def case(draw):
